@@ -5,7 +5,7 @@
    centres are distinct frames; every label is in [0,k); every distance is the metric distance to
    the assigned centre; no centre is strictly closer; every centre frame has its own label at 0. *)
 From Coq Require Import List ZArith QArith.
-From EV Require Import Cluster ClusterCase ClusterBase ClusterInv ClusterPam ClusterKC ClusterTop ClusterExample Partition ClusterWarm.
+From EV Require Import Cluster ClusterCase ClusterBase ClusterInv ClusterPam ClusterKC ClusterTop ClusterExample Partition ClusterWarm KcGuardBase ClusterGen ClusterSkel ClusterGenProofs.
 Import ListNotations.
 
 (* the invariant spelt out in the words of the property *)
@@ -75,6 +75,19 @@ Theorem c01_warm_start_center_indices : forall D, (forall f, D f f == 0) -> (for
   find_cluster_centers (snd (nearest_state D cs n)) = cs.
 Proof. exact warm_start_center_indices. Qed.
 Print Assumptions c01_warm_start_center_indices.
+
+(* the three PAM masks and their write order as regenerated from kmedoids.py (Gen/ClusterGen.v) give
+   exactly the model's three-way reassignment: the masks are exhaustive, no frame is left at -1 *)
+Theorem c01_source_pam_masks_are_model : forall D cid p cs' x,
+  pam_frame_skel D gen_dst_dn gen_up_other gen_up_this cid p cs' x = Some (pam_frame D cid p cs' x).
+Proof. exact gen_pam_frame_is_model. Qed.
+Print Assumptions c01_source_pam_masks_are_model.
+
+(* the running-minimum update of _kcenters_iteration as regenerated from kcenters.py *)
+Theorem c01_source_kcenters_update_is_model : forall D c k x,
+  kc_update_skel D gen_kc_improves c k x = kc_update D c k x.
+Proof. exact gen_kc_update_is_model. Qed.
+Print Assumptions c01_source_kcenters_update_is_model.
 
 (* the distance matrix of a case meets the hypotheses whenever the executable check accepts it *)
 Theorem c01_checked_matrix_is_valid : forall m n, valid_matrix m n = true ->
